@@ -1,5 +1,551 @@
-//! C15 — not built yet.
-#![allow(unused)]
+//! C15 — shape operations, constructors, predicates: lock-step programs and constructor cases for the Coq
+//! correspondence (`gen`) and the failure-search oracle (`oracle`: a `Vec<Vec<f64>>` reference model).
+#![allow(clippy::needless_range_loop)]
 use crate::util::*;
-pub fn gen(_tier: &str, _seed: u64, _outdir: &str) { eprintln!("C15: gen not implemented"); std::process::exit(3); }
-pub fn oracle(_tier: &str, _seed: u64) -> (u64, Vec<Finding>) { eprintln!("C15: oracle not implemented"); std::process::exit(3); }
+#[path = "c15_util.rs"]
+mod c15_util;
+use compute::linalg::{
+    arange, col_to_row_major, design, diag, diag_matrix, is_design, is_square, is_symmetric, linspace, rotation_matrix_ccw,
+    rotation_matrix_cw, row_to_col_major, toeplitz, transpose, vandermonde, Axis, Matrix, Vector,
+};
+
+// ---------------------------------------------------------------------------------------------
+// structural operations
+#[derive(Clone, Debug)]
+enum Op {
+    T, TMut, Reshape(i32, i32), ReshapeMut(i32, i32), Hcat(Vec<f64>, i32, i32), Vcat(Vec<f64>, i32, i32),
+    Hrepeat(usize), Vrepeat(usize), GetRow(usize), GetCol(usize), ApplyRow(usize, u8), ApplyCol(usize, u8),
+    FlatIdx(usize), FlatSet(usize, f64), Idx(usize, usize), IdxSet(usize, usize, f64), RowSlice(usize), Diag,
+    ToVecReshape(i32, i32), ToVecToMatrix, RowToCol, ColToRow,
+}
+const NKINDS: u64 = 22;
+
+fn fun(k: u8, x: f64) -> f64 { match k { 0 => -x, 1 => x + 1.0, _ => x * 2.0 } }
+
+impl Op {
+    fn name(&self) -> &'static str {
+        match self {
+            Op::T => "t", Op::TMut => "t_mut", Op::Reshape(..) => "reshape", Op::ReshapeMut(..) => "reshape_mut", Op::Hcat(..) => "hcat",
+            Op::Vcat(..) => "vcat", Op::Hrepeat(_) => "hrepeat", Op::Vrepeat(_) => "vrepeat", Op::GetRow(_) => "get_row_as_vector",
+            Op::GetCol(_) => "get_col_as_vector", Op::ApplyRow(..) => "apply_along_row", Op::ApplyCol(..) => "apply_along_col",
+            Op::FlatIdx(_) => "flat_idx", Op::FlatSet(..) => "flat_idx_replace", Op::Idx(..) => "index[i,j]", Op::IdxSet(..) => "index_mut[i,j]",
+            Op::RowSlice(_) => "index[i]", Op::Diag => "diag", Op::ToVecReshape(..) => "to_vec.reshape", Op::ToVecToMatrix => "to_vec.to_matrix",
+            Op::RowToCol => "row_to_col_major", Op::ColToRow => "col_to_row_major",
+        }
+    }
+    fn changes_state(&self) -> bool {
+        !matches!(self, Op::GetRow(_) | Op::GetCol(_) | Op::FlatIdx(_) | Op::Idx(..) | Op::RowSlice(_) | Op::Diag)
+    }
+    /// run on the implementation (may panic)
+    fn run(&self, m: &mut Matrix) -> Vec<f64> {
+        match self {
+            Op::T => { *m = m.t(); vec![] }
+            Op::TMut => { m.t_mut(); vec![] }
+            Op::Reshape(r, c) => { *m = m.reshape(*r, *c); vec![] }
+            Op::ReshapeMut(r, c) => { m.reshape_mut(*r, *c); vec![] }
+            Op::Hcat(d, r, c) => { let o = Matrix::new(d.clone(), *r, *c); *m = m.hcat(o); vec![] }
+            Op::Vcat(d, r, c) => { let o = Matrix::new(d.clone(), *r, *c); *m = m.vcat(o); vec![] }
+            Op::Hrepeat(n) => { *m = m.hrepeat(*n); vec![] }
+            Op::Vrepeat(n) => { *m = m.vrepeat(*n); vec![] }
+            Op::GetRow(i) => m.get_row_as_vector(*i).v,
+            Op::GetCol(j) => m.get_col_as_vector(*j).v,
+            Op::ApplyRow(i, k) => { let k = *k; m.apply_along_row(*i, move |x| fun(k, x)); vec![] }
+            Op::ApplyCol(j, k) => { let k = *k; m.apply_along_col(*j, move |x| fun(k, x)); vec![] }
+            Op::FlatIdx(k) => vec![m.flat_idx(*k)],
+            Op::FlatSet(k, v) => { m.flat_idx_replace(*k, *v); vec![] }
+            Op::Idx(i, j) => vec![m[[*i, *j]]],
+            Op::IdxSet(i, j, v) => { m[[*i, *j]] = *v; vec![] }
+            Op::RowSlice(i) => m[*i].to_vec(),
+            Op::Diag => m.diag().v,
+            Op::ToVecReshape(r, c) => { let v = m.clone().to_vec(); *m = v.reshape(*r, *c); vec![] }
+            Op::ToVecToMatrix => { let v = m.clone().to_vec(); *m = v.to_matrix(); vec![] }
+            Op::RowToCol => { let d = row_to_col_major(&m.data, m.nrows); *m = Matrix::new(d, m.ncols as i32, m.nrows as i32); vec![] }
+            Op::ColToRow => { let d = col_to_row_major(&m.data, m.ncols); *m = Matrix::new(d, m.ncols as i32, m.nrows as i32); vec![] }
+        }
+    }
+    fn term(&self) -> Tm {
+        let n = |x: usize| Tm::Nat(x as u64);
+        let z = |x: i32| Tm::Z(x as i64);
+        match self {
+            Op::T => Tm::Raw("KT".into()), Op::TMut => Tm::Raw("KTMut".into()),
+            Op::Reshape(r, c) => app("KReshape", vec![z(*r), z(*c)]), Op::ReshapeMut(r, c) => app("KReshapeMut", vec![z(*r), z(*c)]),
+            Op::Hcat(d, r, c) => app("KHcat", vec![fl(d), z(*r), z(*c)]), Op::Vcat(d, r, c) => app("KVcat", vec![fl(d), z(*r), z(*c)]),
+            Op::Hrepeat(k) => app("KHrepeat", vec![n(*k)]), Op::Vrepeat(k) => app("KVrepeat", vec![n(*k)]),
+            Op::GetRow(i) => app("KGetRow", vec![n(*i)]), Op::GetCol(j) => app("KGetCol", vec![n(*j)]),
+            Op::ApplyRow(i, k) => app("KApplyRow", vec![n(*i), n(*k as usize)]), Op::ApplyCol(j, k) => app("KApplyCol", vec![n(*j), n(*k as usize)]),
+            Op::FlatIdx(k) => app("KFlatIdx", vec![n(*k)]), Op::FlatSet(k, v) => app("KFlatSet", vec![n(*k), Tm::F(*v)]),
+            Op::Idx(i, j) => app("KIdx", vec![n(*i), n(*j)]), Op::IdxSet(i, j, v) => app("KIdxSet", vec![n(*i), n(*j), Tm::F(*v)]),
+            Op::RowSlice(i) => app("KRowSlice", vec![n(*i)]), Op::Diag => Tm::Raw("KDiag".into()),
+            Op::ToVecReshape(r, c) => app("KToVecReshape", vec![z(*r), z(*c)]), Op::ToVecToMatrix => Tm::Raw("KToVecToMatrix".into()),
+            Op::RowToCol => Tm::Raw("KRowToCol".into()), Op::ColToRow => Tm::Raw("KColToRow".into()),
+        }
+    }
+}
+
+// ---------------------------------------------------------------------------------------------
+// the plain reference model: rows of rows (used by the oracle only)
+type Rows = Vec<Vec<f64>>;
+fn rows_of(d: &[f64], r: usize, c: usize) -> Rows { (0..r).map(|i| d[i * c..(i + 1) * c].to_vec()).collect() }
+fn flat(a: &Rows) -> Vec<f64> { a.iter().flatten().cloned().collect() }
+/// the shape a request (r, c) denotes for `size` elements; None = impossible shape
+fn want_shape(size: usize, r: i32, c: i32) -> Option<(usize, usize)> {
+    if size == 0 { return None; }
+    let (r, c) = (r as i64, c as i64);
+    let s = size as i64;
+    if r > 0 && c > 0 { if r * c == s { Some((r as usize, c as usize)) } else { None } }
+    else if r == -1 && c > 0 { if s % c == 0 { Some(((s / c) as usize, c as usize)) } else { None } }
+    else if c == -1 && r > 0 { if s % r == 0 { Some((r as usize, (s / r) as usize)) } else { None } }
+    else { None }
+}
+fn ref_new(d: &[f64], r: i32, c: i32) -> Option<Rows> { want_shape(d.len(), r, c).map(|(r, c)| rows_of(d, r, c)) }
+fn ref_t(a: &Rows) -> Rows { (0..a[0].len()).map(|j| a.iter().map(|row| row[j]).collect()).collect() }
+/// None = the operation must panic
+fn ref_op(a: &Rows, op: &Op) -> Option<(Rows, Vec<f64>)> {
+    let (nr, nc) = (a.len(), a[0].len());
+    let same = |out: Vec<f64>| Some((a.clone(), out));
+    match op {
+        Op::T | Op::TMut | Op::RowToCol | Op::ColToRow => Some((ref_t(a), vec![])),
+        Op::Reshape(r, c) | Op::ReshapeMut(r, c) | Op::ToVecReshape(r, c) => ref_new(&flat(a), *r, *c).map(|m| (m, vec![])),
+        Op::ToVecToMatrix => Some((vec![flat(a)], vec![])),
+        Op::Hcat(d, r, c) => { let o = ref_new(d, *r, *c)?; if o.len() != nr { return None; }
+            Some((a.iter().zip(&o).map(|(x, y)| { let mut x = x.clone(); x.extend(y); x }).collect(), vec![])) }
+        Op::Vcat(d, r, c) => { let o = ref_new(d, *r, *c)?; if o[0].len() != nc { return None; }
+            let mut m = a.clone(); m.extend(o); Some((m, vec![])) }
+        Op::Hrepeat(n) => if *n == 0 { None } else { Some((a.iter().map(|x| { let mut y = vec![]; for _ in 0..*n { y.extend(x); } y }).collect(), vec![])) },
+        Op::Vrepeat(n) => if *n == 0 { None } else { let mut m = vec![]; for _ in 0..*n { m.extend(a.clone()); } Some((m, vec![])) },
+        Op::GetRow(i) | Op::RowSlice(i) => if *i < nr { same(a[*i].clone()) } else { None },
+        Op::GetCol(j) => if *j < nc { same(a.iter().map(|x| x[*j]).collect()) } else { None },
+        Op::ApplyRow(i, k) => if *i < nr { let mut m = a.clone(); for x in m[*i].iter_mut() { *x = fun(*k, *x); } Some((m, vec![])) } else { None },
+        Op::ApplyCol(j, k) => if *j < nc { let mut m = a.clone(); for x in m.iter_mut() { x[*j] = fun(*k, x[*j]); } Some((m, vec![])) } else { None },
+        Op::FlatIdx(k) => if *k < nr * nc { same(vec![a[*k / nc][*k % nc]]) } else { None },
+        Op::FlatSet(k, v) => if *k < nr * nc { let mut m = a.clone(); m[*k / nc][*k % nc] = *v; Some((m, vec![])) } else { None },
+        Op::Idx(i, j) => if *i < nr && *j < nc { same(vec![a[*i][*j]]) } else { None },
+        Op::IdxSet(i, j, v) => if *i < nr && *j < nc { let mut m = a.clone(); m[*i][*j] = *v; Some((m, vec![])) } else { None },
+        Op::Diag => same((0..nr.min(nc)).map(|i| a[i][i]).collect()),
+    }
+}
+
+fn divisors(n: usize) -> Vec<usize> { (1..=n).filter(|d| n % d == 0).collect() }
+
+/// draw an operation for a matrix of the given shape: mostly valid, sometimes malformed
+fn draw_op(r: &mut Rng, nr: usize, nc: usize, grow: bool) -> Op {
+    let size = nr * nc;
+    let bad = r.coin(0.06);
+    let val = |r: &mut Rng| r.small_int(99);
+    let shape = |r: &mut Rng| -> (i32, i32) {
+        if bad { match r.below(6) { 0 => (0, size as i32), 1 => (-1, -1), 2 => (-2, 1), 3 => (nr as i32 + 1, nc as i32), 4 => (-1, size as i32 + 1), _ => (1, -3) } }
+        else {
+            let ds = divisors(size); let d = *r.pick(&ds);
+            match r.below(12) { 0..=4 => (d as i32, (size / d) as i32), 5..=7 => (-1, d as i32), 8..=10 => (d as i32, -1),
+                // an inferred dimension that does not divide the size (the non-divisor is in 2..=size+1)
+                _ => { let nd = 2 + r.below(size as u64) as usize; if r.coin(0.5) { (-1, nd as i32) } else { (nd as i32, -1) } } }
+        }
+    };
+    loop {
+        let k = r.below(NKINDS);
+        let op = match k {
+            0 => Op::T, 1 => Op::TMut,
+            2 => { let (a, b) = shape(r); Op::Reshape(a, b) }
+            3 => { let (a, b) = shape(r); Op::ReshapeMut(a, b) }
+            4 => { let oc = 1 + r.below(3) as usize; let orr = if bad { nr + 1 } else { nr };
+                   let d: Vec<f64> = (0..orr * oc).map(|_| val(r)).collect();
+                   let (a, b) = match r.below(3) { 0 => (orr as i32, oc as i32), 1 => (-1, oc as i32), _ => (orr as i32, -1) }; Op::Hcat(d, a, b) }
+            5 => { let orr = 1 + r.below(3) as usize; let oc = if bad { nc + 1 } else { nc };
+                   let d: Vec<f64> = (0..orr * oc).map(|_| val(r)).collect();
+                   let (a, b) = match r.below(3) { 0 => (orr as i32, oc as i32), 1 => (-1, oc as i32), _ => (orr as i32, -1) }; Op::Vcat(d, a, b) }
+            6 => Op::Hrepeat(if bad { 0 } else { 1 + r.below(2) as usize }),
+            7 => Op::Vrepeat(if bad { 0 } else { 1 + r.below(2) as usize }),
+            8 => Op::GetRow(if bad { nr + r.below(2) as usize } else { r.below(nr as u64) as usize }),
+            9 => Op::GetCol(if bad { nc + r.below(2) as usize } else { r.below(nc as u64) as usize }),
+            10 => Op::ApplyRow(if bad { nr } else { r.below(nr as u64) as usize }, r.below(3) as u8),
+            11 => Op::ApplyCol(if bad { nc } else { r.below(nc as u64) as usize }, r.below(3) as u8),
+            12 => Op::FlatIdx(if bad { size + r.below(2) as usize } else { r.below(size as u64) as usize }),
+            13 => Op::FlatSet(if bad { size } else { r.below(size as u64) as usize }, val(r)),
+            14 => Op::Idx(if bad && r.coin(0.5) { nr } else { r.below(nr as u64) as usize }, if bad { nc } else { r.below(nc as u64) as usize }),
+            15 => Op::IdxSet(if bad { nr } else { r.below(nr as u64) as usize }, if bad && r.coin(0.5) { nc } else { r.below(nc as u64) as usize }, val(r)),
+            16 => Op::RowSlice(if bad { nr } else { r.below(nr as u64) as usize }),
+            17 => Op::Diag,
+            18 => { let (a, b) = shape(r); Op::ToVecReshape(a, b) }
+            19 => Op::ToVecToMatrix, 20 => Op::RowToCol, _ => Op::ColToRow,
+        };
+        let grows = matches!(op, Op::Hcat(..) | Op::Vcat(..)) || matches!(op, Op::Hrepeat(n) | Op::Vrepeat(n) if n >= 2);
+        if grows && !grow { continue; }
+        return op;
+    }
+}
+
+fn start_matrix(r: &mut Rng, maxd: u64) -> (Vec<f64>, usize, usize) {
+    let (nr, nc) = (1 + r.below(maxd) as usize, 1 + r.below(maxd) as usize);
+    let d: Vec<f64> = if r.coin(0.8) { (0..nr * nc).map(|_| r.small_int(99)).collect() } else { (0..nr * nc).map(|_| r.uniform(-4.0, 4.0)).collect() };
+    (d, nr, nc)
+}
+
+fn state_vec(m: &Matrix) -> Vec<f64> { let mut v = vec![m.nrows as f64, m.ncols as f64]; v.extend_from_slice(&m.data); v }
+fn b2f(b: bool) -> Vec<f64> { vec![if b { 1.0 } else { 0.0 }] }
+fn axis(k: u64) -> Axis { match k { 0 => Axis::X, 1 => Axis::Y, _ => Axis::Z } }
+
+// ---------------------------------------------------------------------------------------------
+pub fn gen(tier: &str, seed: u64, outdir: &str) {
+    let mut r = Rng::new(seed);
+    let mut cs = Cases::new("C15");
+    let thorough = tier == "thorough";
+    // 1. lock-step programs: the trace holds, after every step, [nrows, ncols] ++ data ++ output
+    let nprog = if thorough { 4000 } else { 260 };
+    for p in 0..nprog {
+        let (d, nr, nc) = start_matrix(&mut r, 8);
+        // the start matrix goes through Matrix::new with an explicit or an inferred dimension
+        let (a, b) = match p % 4 { 0 => (-1, nc as i32), 1 => (nr as i32, -1), _ => (nr as i32, nc as i32) };
+        let len = 1 + r.below(40) as usize;
+        let mut m = Matrix::new(d.clone(), a, b);
+        let mut trace = state_vec(&m);
+        let mut ops = vec![]; let mut panicked = false; let mut changes = 0;
+        for _ in 0..len {
+            let op = draw_op(&mut r, m.nrows, m.ncols, m.nrows * m.ncols <= 24);
+            ops.push(op.term());
+            let res = catch(|| { let mut mm = m.clone(); let out = op.run(&mut mm); (mm, out) });
+            match res {
+                Ok((mm, out)) => { if op.changes_state() { changes += 1; } m = mm; trace.extend(state_vec(&m)); trace.extend(out); }
+                Err(_) => { panicked = true; break; }
+            }
+        }
+        cs.push(app("CProg", vec![fl(&d), Tm::Z(a as i64), Tm::Z(b as i64), Tm::L(ops), fl(&trace), Tm::B(panicked)]),
+                if panicked { "program/ends-in-panic" } else { "program/completes" }, changes >= 2);
+    }
+    // 2. Matrix::new / Vector::reshape on arbitrary (length, rows, cols) incl. impossible shapes
+    let nnew = if thorough { 3000 } else { 300 };
+    for _ in 0..nnew {
+        let len = r.below(13) as usize; let d: Vec<f64> = (0..len).map(|_| r.small_int(9)).collect();
+        let (a, b) = (r.range(-2, 7) as i32, r.range(-2, 7) as i32);
+        let res = catch(|| state_vec(&Matrix::new(d.clone(), a, b)));
+        cs.push(app("CNew", vec![fl(&d), Tm::Z(a as i64), Tm::Z(b as i64), outcome_list(&res)]), if res.is_ok() { "new/value" } else { "new/panic" }, res.is_err() || (a < 0 || b < 0));
+    }
+    // 3. constructors
+    let sizes: Vec<usize> = if thorough { (0..=64).collect() } else { vec![0, 1, 2, 3, 4, 5, 7, 8, 9, 16, 17, 31, 40, 64] };
+    for &n in &sizes {
+        let res = catch(|| state_vec(&Matrix::eye(n)));
+        cs.push(app("CEye", vec![Tm::Nat(n as u64), outcome_list(&res)]), "eye", n >= 2);
+        let a: Vec<f64> = (0..n).map(|_| r.uniform(-4.0, 4.0)).collect();
+        if n <= 40 || thorough {
+            let res = catch(|| diag_matrix(&a).v);
+            cs.push(app("CDiagMatrix", vec![fl(&a), outcome_list(&res)]), "diag_matrix", n >= 2);
+            let res = catch(|| toeplitz(&a));
+            cs.push(app("CToeplitz", vec![fl(&a), outcome_list(&res)]), "toeplitz", n >= 2);
+        }
+        let k = r.below(9) as usize;
+        let res = catch(|| vandermonde(&a, k));
+        cs.push(app("CVandermonde", vec![fl(&a), Tm::Nat(k as u64), outcome_list(&res)]), "vandermonde", n >= 2 && k >= 2);
+    }
+    let nshape = if thorough { 9 } else { 6 };
+    for nr in 0..=nshape { for nc in 0..=nshape {
+        let res = catch(|| state_vec(&Matrix::zeros(nr, nc)));
+        cs.push(app("CZeros", vec![Tm::Nat(nr as u64), Tm::Nat(nc as u64), outcome_list(&res)]), "zeros", nr >= 1 && nc >= 1);
+        let res = catch(|| state_vec(&Matrix::ones(nr, nc)));
+        cs.push(app("COnes", vec![Tm::Nat(nr as u64), Tm::Nat(nc as u64), outcome_list(&res)]), "ones", nr >= 1 && nc >= 1);
+        // design: x is rows x k, row-major; also lengths that are not a multiple of the row count
+        if nr >= 1 {
+            let extra = if r.coin(0.15) { 1 } else { 0 };
+            let x: Vec<f64> = (0..nr * nc + extra).map(|_| r.small_int(9)).collect();
+            let res = catch(|| design(&x, nr));
+            cs.push(app("CDesign", vec![fl(&x), Tm::Nat(nr as u64), outcome_list(&res)]), "design", nc >= 1);
+        }
+    }}
+    let ngrid = if thorough { 3000 } else { 300 };
+    for it in 0..ngrid {
+        // linspace: every size 0..=64 over the iterations
+        let n = it % 65;
+        let (a, b) = if it % 5 == 0 { (r.small_int(9), r.small_int(9)) } else { (r.uniform(-50.0, 50.0), r.uniform(-50.0, 50.0)) };
+        let res = catch(|| linspace(a, b, n).v);
+        cs.push(app("CLinspace", vec![Tm::F(a), Tm::F(b), Tm::Nat(n as u64), outcome_list(&res)]), "linspace", n >= 2);
+        // arange: integer and non-integer ratios, both signs of step, degenerate steps
+        let start = if it % 3 == 0 { r.small_int(20) / 8.0 } else { r.uniform(-10.0, 10.0) };
+        let step = match it % 11 { 0 => 0.0, 1 => -r.uniform(0.05, 2.0), 2 => f64::NAN, 3 => r.small_int(8) / 8.0, _ => r.uniform(0.05, 2.0) };
+        let q = r.below(40) as f64; let frac = *r.pick(&[0.0, 0.0, 0.25, 0.5, 0.75, 0.3, 0.9]);
+        let stop = if it % 13 == 0 { start - 1.0 } else { start + step * (q + frac) };
+        if !(((stop - start) / step).abs() > 1e6) {
+            crate::libm::start();
+            let res = catch(|| arange(start, stop, step).v);
+            let t = crate::libm::stop();
+            cs.push(app("CArange", vec![libm_table(&t), Tm::F(start), Tm::F(stop), Tm::F(step), outcome_list(&res)]), "arange", res.as_ref().map(|v| v.len() >= 2).unwrap_or(false));
+        }
+        // rotations: angles in +-4pi (and a few special values)
+        let ang = match it % 17 { 0 => 0.0, 1 => std::f64::consts::PI, 2 => -0.0, 3 => f64::NAN, 4 => f64::INFINITY, _ => r.uniform(-4.0 * std::f64::consts::PI, 4.0 * std::f64::consts::PI) };
+        let ax = (it % 3) as u64; let cw = it % 2 == 0;
+        crate::libm::start();
+        let res = catch(|| state_vec(&if cw { rotation_matrix_cw(ang, axis(ax)) } else { rotation_matrix_ccw(ang, axis(ax)) }));
+        let t = crate::libm::stop();
+        cs.push(app("CRot", vec![libm_table(&t), Tm::B(cw), Tm::Nat(ax), Tm::F(ang), outcome_list(&res)]), if cw { "rotation/cw" } else { "rotation/ccw" }, ang != 0.0);
+    }
+    // 4. slice utilities: transpose / layout conversion / diag / is_square / is_design / is_symmetric on arbitrary lengths
+    let nutil = if thorough { 3000 } else { 400 };
+    for it in 0..nutil {
+        let (nr, nc) = (r.below(7) as usize, 1 + r.below(6) as usize);
+        let extra = if r.coin(0.2) { 1 + r.below(2) as usize } else { 0 };
+        let a: Vec<f64> = (0..nr * nc + extra).map(|_| r.small_int(9)).collect();
+        match it % 4 {
+            0 => { let res = catch(|| transpose(&a, nr)); cs.push(app("CTranspose", vec![fl(&a), Tm::Nat(nr as u64), outcome_list(&res)]), "utils/transpose", nr >= 2 && nc >= 2); }
+            1 => { let res = catch(|| row_to_col_major(&a, nr).v); cs.push(app("CRowToCol", vec![fl(&a), Tm::Nat(nr as u64), outcome_list(&res)]), "utils/row_to_col_major", nr >= 2 && nc >= 2); }
+            2 => { let res = catch(|| col_to_row_major(&a, nr)); cs.push(app("CColToRow", vec![fl(&a), Tm::Nat(nr as u64), outcome_list(&res)]), "utils/col_to_row_major", nr >= 2 && nc >= 2); }
+            _ => { let mut b = a.clone(); if nr >= 1 && r.coin(0.7) { for i in 0..nr { if i * nc < b.len() { b[i * nc] = if r.coin(0.9) { 1.0 } else { 1.0 + f64::EPSILON * r.small_int(3) } } } }
+                   let res = catch(|| b2f(is_design(&b, nr))); cs.push(app("CIsDesign", vec![fl(&b), Tm::Nat(nr as u64), outcome_list(&res)]), "utils/is_design", nr >= 2); }
+        }
+        // square-array utilities
+        let n = r.below(7) as usize; let len = if r.coin(0.8) { n * n } else { n * n + 1 + r.below(3) as usize };
+        let mut s: Vec<f64> = (0..len).map(|_| r.small_int(9)).collect();
+        if len == n * n && r.coin(0.7) { for i in 0..n { for j in 0..i { s[i * n + j] = s[j * n + i]; } } if r.coin(0.3) && n >= 2 { s[n] += *r.pick(&[f64::EPSILON, 2.0 * f64::EPSILON, 1.0, f64::NAN]); } }
+        let res = catch(|| is_square(&s).map(|k| vec![k as f64]).unwrap_or(vec![-1.0]));
+        cs.push(app("CIsSquareU", vec![Tm::Nat(len as u64), outcome_list(&res)]), "utils/is_square", len >= 2);
+        let res = catch(|| b2f(is_symmetric(&s)));
+        cs.push(app("CIsSymU", vec![fl(&s), outcome_list(&res)]), "utils/is_symmetric", n >= 2);
+        let res = catch(|| diag(&s).v);
+        cs.push(app("CDiagU", vec![fl(&s), outcome_list(&res)]), "utils/diag", n >= 2);
+    }
+    for len in 0..=(if thorough { 4200 } else { 300 }) {
+        let s = vec![0.0; len];
+        let res = catch(|| is_square(&s).map(|k| vec![k as f64]).unwrap_or(vec![-1.0]));
+        cs.push(app("CIsSquareU", vec![Tm::Nat(len as u64), outcome_list(&res)]), "utils/is_square", len >= 2);
+    }
+    // 5. Matrix predicates on every shape, comparisons
+    let npred = if thorough { 6000 } else { 700 };
+    for it in 0..npred {
+        let (nr, nc) = (1 + r.below(8) as usize, 1 + r.below(8) as usize);
+        let mut d: Vec<f64> = (0..nr * nc).map(|_| r.small_int(9)).collect();
+        let kind = it % 4;
+        for i in 0..nr { for j in 0..nc {
+            if kind == 1 && j < i && r.coin(0.97) { d[i * nc + j] = if r.coin(0.2) { -0.0 } else { 0.0 }; }
+            if kind == 2 && j > i && r.coin(0.97) { d[i * nc + j] = 0.0; }
+            if kind == 3 && nr == nc && j < i { d[i * nc + j] = d[j * nc + i] + *r.pick(&[0.0, 0.0, 0.0, 0.0, 0.0, 0.0, f64::EPSILON, 2.0 * f64::EPSILON, -1.0]); }
+        }}
+        if r.coin(0.03) { let k = r.below((nr * nc) as u64) as usize; d[k] = f64::NAN; }
+        let m = Matrix::new(d.clone(), nr as i32, nc as i32);
+        let res = catch(|| vec![m.is_square() as u8 as f64, m.is_symmetric() as u8 as f64, m.is_upper_triangular() as u8 as f64, m.is_lower_triangular() as u8 as f64]);
+        cs.push(app("CPred", vec![Tm::Nat(nr as u64), Tm::Nat(nc as u64), fl(&d), outcome_list(&res)]), &format!("predicates/{}", ["random", "upper", "lower", "symmetric"][kind]), nr != nc || kind != 0);
+        // comparisons
+        let n = 1 + r.below(10) as usize;
+        let x: Vec<f64> = (0..n).map(|_| match r.below(12) { 0 => 0.0, 1 => -0.0, 2 => f64::NAN, 3 => f64::INFINITY, 4 => 5e-324, _ => r.uniform(-4.0, 4.0) }).collect();
+        let tol = *r.pick(&[1e-10, 1e-6, 1e-3, 0.5, 0.0, 3.0]);
+        let mode = it % 6;
+        let y: Vec<f64> = match mode {
+            0 => x.clone(),
+            1 => x.iter().map(|v| -v).collect(),
+            2 => x.iter().map(|v| v * (1.0 + tol * r.uniform(-1.5, 1.5))).collect(),
+            3 => { let mut y = x.clone(); y.push(1.0); y }
+            4 => x.iter().map(|v| v + f64::EPSILON * r.small_int(2)).collect(),
+            _ => x.iter().map(|v| if r.coin(0.3) { 0.0 } else { *v }).collect(),
+        };
+        let (vx, vy) = (Vector::new(x.clone()), Vector::new(y.clone()));
+        let res = catch(|| vec![vx.close_to(&vy, tol) as u8 as f64, (vx == vy) as u8 as f64]);
+        cs.push(app("CCmpV", vec![fl(&x), fl(&y), Tm::F(tol), outcome_list(&res)]), &format!("compare/vector/mode{}", mode), mode != 0);
+        if x.len() == y.len() {
+            let ds = divisors(n); let (r1, r2) = (*r.pick(&ds), *r.pick(&ds));
+            let (mx, my) = (Matrix::new(x.clone(), r1 as i32, -1), Matrix::new(y.clone(), r2 as i32, -1));
+            let res = catch(|| vec![mx.close_to(&my, tol) as u8 as f64, (mx == my) as u8 as f64]);
+            cs.push(app("CCmpM", vec![Tm::Nat(r1 as u64), Tm::Nat(r2 as u64), fl(&x), fl(&y), Tm::F(tol), outcome_list(&res)]), &format!("compare/matrix/mode{}", mode), r1 != r2 || mode != 0);
+        }
+    }
+    cs.write(outdir, 60,
+             "lock-step programs of 1..40 structural operations (22 kinds, ~6% malformed arguments, inferred and explicit dimensions) over 1..8 x 1..8 start matrices, the whole state compared after every step; Matrix::new on arbitrary lengths/dimensions; eye/diag_matrix/toeplitz/vandermonde over sizes 0..64, zeros/ones/design over all small shapes, linspace sizes 0..64, arange with integer and non-integer ratios and both step signs, rotations about all three axes for angles in +-4pi and special values (libm table recorded); slice utilities on arbitrary lengths; predicates over all shapes 1..8 x 1..8 (triangular/symmetric/perturbed/NaN), vector and matrix comparisons (equal, negated, perturbed, zeros, different lengths/shapes). Non-trivial: a program with >= 2 state-changing steps; a constructor of size >= 2; a predicate on a non-square or structured matrix; a comparison of non-identical operands; distinct by hash of the case term");
+}
+
+// ---------------------------------------------------------------------------------------------
+// failure-search oracle
+fn push(out: &mut Vec<Finding>, class: &str, what: String, input: String) { out.push(Finding { class: class.into(), what, input }); }
+
+pub fn oracle(tier: &str, seed: u64) -> (u64, Vec<Finding>) {
+    let mut r = Rng::new(seed ^ 0xC15);
+    let mut out = vec![]; let mut tried = 0u64;
+    let thorough = tier == "thorough";
+    // ---- programs in lock-step with the rows-of-rows reference
+    let nprog = if thorough { 20000 } else { 2500 };
+    'prog: for p in 0..nprog {
+        let (d, nr, nc) = start_matrix(&mut r, 8);
+        let (a, b) = match p % 4 { 0 => (-1, nc as i32), 1 => (nr as i32, -1), _ => (nr as i32, nc as i32) };
+        let mut m = Matrix::new(d.clone(), a, b);
+        let mut rf = rows_of(&d, nr, nc);
+        let len = 1 + r.below(40) as usize;
+        let mut hist = format!("Matrix::new({}, {}, {})", json_floats(&d), a, b);
+        for _ in 0..len {
+            let op = draw_op(&mut r, rf.len(), rf[0].len(), rf.len() * rf[0].len() <= 24);
+            hist.push_str(&format!(" ; {:?}", op));
+            let want = ref_op(&rf, &op);
+            crumb(&hist);
+            let got = catch(|| { let mut mm = m.clone(); let o = op.run(&mut mm); (mm, o) });
+            tried += 1;
+            match (want, got) {
+                (None, Err(_)) => continue 'prog,
+                (None, Ok((mm, _))) => { push(&mut out, &format!("program:impossible-request-accepted op={}", op.name()),
+                    format!("{} must panic on a {}x{} matrix but returned; state is now nrows={} ncols={} len={}", op.name(), rf.len(), rf[0].len(), mm.nrows, mm.ncols, mm.data.len()), hist.clone()); continue 'prog; }
+                (Some(_), Err(e)) => { push(&mut out, &format!("program:valid-operation-panics op={}", op.name()), format!("{} panicked ({}) on a {}x{} matrix", op.name(), e, rf.len(), rf[0].len()), hist.clone()); continue 'prog; }
+                (Some((nrf, wout)), Ok((mm, gout))) => {
+                    if mm.nrows * mm.ncols != mm.data.len() { push(&mut out, &format!("program:invariant-broken op={}", op.name()), format!("nrows*ncols = {}*{} != len {}", mm.nrows, mm.ncols, mm.data.len()), hist.clone()); continue 'prog; }
+                    let same = |x: &[f64], y: &[f64]| x.len() == y.len() && x.iter().zip(y).all(|(a, b)| a.to_bits() == b.to_bits());
+                    if mm.nrows != nrf.len() || mm.ncols != nrf[0].len() || !same(&mm.data, &flat(&nrf)) {
+                        push(&mut out, &format!("program:wrong-elements op={}", op.name()), format!("after {}: implementation {}x{} {:?}, reference {}x{} {:?}", op.name(), mm.nrows, mm.ncols, mm.data.v, nrf.len(), nrf[0].len(), flat(&nrf)), hist.clone()); continue 'prog; }
+                    if !same(&gout, &wout) { push(&mut out, &format!("program:wrong-output op={}", op.name()), format!("{} returned {:?}, reference {:?}", op.name(), gout, wout), hist.clone()); continue 'prog; }
+                    m = mm; rf = nrf;
+                }
+            }
+        }
+        if out.len() > 60 { break; }
+    }
+    // ---- constructors
+    let maxn = 64usize;
+    for n in 1..=maxn {
+        tried += 1;
+        crumb(&format!("eye({})", n));
+        match catch(|| Matrix::eye(n)) { Ok(m) => { let ok = m.nrows == n && m.ncols == n && m.data.len() == n * n && (0..n * n).all(|k| m.data[k] == if k / n == k % n { 1.0 } else { 0.0 });
+            if !ok { push(&mut out, "eye:wrong", format!("eye({}) is not the identity", n), format!("n={}", n)); } } Err(e) => push(&mut out, "eye:panics", e, format!("n={}", n)) }
+        let a: Vec<f64> = (0..n).map(|_| r.uniform(-4.0, 4.0)).collect();
+        tried += 2;
+        crumb(&format!("diag_matrix / toeplitz of {}", json_floats(&a)));
+        match catch(|| diag_matrix(&a)) { Ok(v) => if !(v.len() == n * n && (0..n * n).all(|k| v[k] == if k / n == k % n { a[k / n] } else { 0.0 })) { push(&mut out, "diag_matrix:wrong", "not diag(a)".into(), json_floats(&a)); } Err(e) => push(&mut out, "diag_matrix:panics", e, json_floats(&a)) }
+        match catch(|| toeplitz(&a)) { Ok(v) => if !(v.len() == n * n && (0..n * n).all(|k| v[k] == a[(k / n).max(k % n) - (k / n).min(k % n)])) { push(&mut out, "toeplitz:wrong", "entry (i,j) != x[|i-j|]".into(), json_floats(&a)); } Err(e) => push(&mut out, "toeplitz:panics", e, json_floats(&a)) }
+        // vandermonde on small integers (all powers exact)
+        let k = 1 + r.below(12) as usize; let x: Vec<f64> = (0..n.min(20)).map(|_| r.small_int(3)).collect();
+        tried += 1;
+        crumb(&format!("vandermonde({}, {})", json_floats(&x), k));
+        match catch(|| vandermonde(&x, k)) { Ok(v) => { let mut ok = v.len() == x.len() * k; if ok { for i in 0..x.len() { let mut p = 1.0; for j in 0..k { if v[i * k + j] != p { ok = false; } p *= x[i]; } } }
+            if !ok { push(&mut out, "vandermonde:wrong", format!("entry (i,j) != x_i^j, order {}", k), json_floats(&x)); } } Err(e) => push(&mut out, "vandermonde:panics", e, json_floats(&x)) }
+        // zeros / ones / design
+        let (nr, nc) = (1 + r.below(64) as usize, 1 + r.below(8) as usize);
+        tried += 3;
+        crumb(&format!("zeros/ones({}, {})", nr, nc));
+        for (name, val) in [("zeros", 0.0), ("ones", 1.0)] {
+            match catch(|| if val == 0.0 { Matrix::zeros(nr, nc) } else { Matrix::ones(nr, nc) }) { Ok(m) => if !(m.nrows == nr && m.ncols == nc && m.data.len() == nr * nc && m.data.iter().all(|x| *x == val)) { push(&mut out, &format!("{}:wrong", name), "wrong shape or fill".into(), format!("{}x{}", nr, nc)); } Err(e) => push(&mut out, &format!("{}:panics", name), e, format!("{}x{}", nr, nc)) }
+        }
+        let nr = 1 + r.below(n.min(12) as u64) as usize; let nc = 1 + r.below(4) as usize;
+        let x: Vec<f64> = (0..nr * nc).map(|_| r.small_int(50)).collect();
+        crumb(&format!("design(x={}, rows={})", json_floats(&x), nr));
+        match catch(|| design(&x, nr)) { Ok(v) => { let w = nc + 1; let ok = v.len() == nr * w && (0..nr).all(|i| v[i * w] == 1.0 && (0..nc).all(|j| v[i * w + 1 + j] == x[i * nc + j]));
+            if !ok { push(&mut out, "design:not-ones-column-then-x", format!("design of a {}x{} row-major matrix returned {:?}; want each row = 1 followed by the row of x", nr, nc, v), format!("x={} rows={}", json_floats(&x), nr)); }
+            else if !is_design(&v, nr) { push(&mut out, "design:is_design-false", "is_design(design(x)) is false".into(), json_floats(&x)); } }
+            Err(e) => push(&mut out, "design:panics", e, format!("x={} rows={}", json_floats(&x), nr)) }
+    }
+    // ---- grids
+    let ngrid = if thorough { 40000 } else { 4000 };
+    for it in 0..ngrid {
+        let n = 1 + (it % 64);
+        let (a, b) = if it % 5 == 0 { (r.small_int(9), r.small_int(9)) } else { (r.uniform(-50.0, 50.0), r.uniform(-50.0, 50.0)) };
+        tried += 1;
+        let inp = format!("linspace({:e}, {:e}, {})", a, b, n);
+        crumb(&inp);
+        match catch(|| linspace(a, b, n).v) {
+            Ok(v) => {
+                let scale = 1e-12 * (a.abs() + b.abs() + 1.0);
+                if v.len() != n { push(&mut out, "linspace:wrong-count", format!("{} points", v.len()), inp); }
+                else if n == 1 { if !(v[0] == a) { push(&mut out, "linspace:single-point-not-start", format!("returned {:?}; a one-point grid is [start]", v), inp); } }
+                else if v[0] != a || (v[n - 1] - b).abs() > scale { push(&mut out, "linspace:endpoints", format!("first {:e}, last {:e}", v[0], v[n - 1]), inp); }
+                else if !(0..n).all(|i| (v[i] - (a + (b - a) * i as f64 / (n - 1) as f64)).abs() <= scale) { push(&mut out, "linspace:spacing", "points are not evenly spaced".into(), inp); }
+            }
+            Err(e) => push(&mut out, "linspace:panics", e, inp),
+        }
+        // arange: start/step/stop chosen so that the exact ratio (stop-start)/step = q + frac is known
+        let dyadic = it % 2 == 0;
+        let neg = it % 7 == 0;
+        let q = r.below(60) as f64;
+        let (start, step, frac) = if dyadic { (r.small_int(40) / 8.0, (1.0 + r.below(16) as f64) / 8.0, *r.pick(&[0.0, 0.25, 0.5, 0.75])) }
+                                  else { (r.uniform(-10.0, 10.0), r.uniform(0.05, 2.0), r.uniform(0.2, 0.8)) };
+        let step = if neg { -step } else { step };
+        let stop = start + step * (q + frac);
+        let want = q as usize + if frac > 0.0 { 1 } else { 0 };
+        tried += 1;
+        let inp = format!("arange({:e}, {:e}, {:e})", start, stop, step);
+        crumb(&inp);
+        match catch(|| arange(start, stop, step).v) {
+            Ok(v) => {
+                let scale = 1e-12 * (start.abs() + stop.abs() + 1.0);
+                if v.len() != want { push(&mut out, if v.len() + 1 == want { "arange:drops-last-grid-point" } else { "arange:wrong-count" }, format!("{} points; (stop-start)/step = {} so the half-open grid has {} points", v.len(), q + frac, want), inp); }
+                else if !(0..want).all(|i| (v[i] - (start + i as f64 * step)).abs() <= scale && (if neg { v[i] > stop } else { v[i] < stop })) { push(&mut out, "arange:wrong-points", "a point is off the grid or not inside [start, stop)".into(), inp); }
+            }
+            Err(e) => push(&mut out, "arange:panics", e, inp),
+        }
+        // rotations
+        let ang = r.uniform(-4.0 * std::f64::consts::PI, 4.0 * std::f64::consts::PI);
+        for ax in 0..3u64 {
+            tried += 1;
+            let inp = format!("angle={:e} axis={}", ang, ["X", "Y", "Z"][ax as usize]);
+            crumb(&format!("rotation_matrix_cw/ccw {}", inp));
+            match catch(|| (rotation_matrix_cw(ang, axis(ax)), rotation_matrix_ccw(ang, axis(ax)))) {
+                Ok((cw, ccw)) => {
+                    for (nm, m) in [("cw", &cw), ("ccw", &ccw)] {
+                        if m.nrows != 3 || m.ncols != 3 || m.data.len() != 9 { push(&mut out, "rotation:shape", format!("{} not 3x3", nm), inp.clone()); continue; }
+                        let g = |i: usize, j: usize| m.data[i * 3 + j];
+                        let mut orth = true;
+                        for i in 0..3 { for j in 0..3 { let s: f64 = (0..3).map(|k| g(k, i) * g(k, j)).sum(); if (s - if i == j { 1.0 } else { 0.0 }).abs() > 1e-12 { orth = false; } } }
+                        let det = g(0, 0) * (g(1, 1) * g(2, 2) - g(1, 2) * g(2, 1)) - g(0, 1) * (g(1, 0) * g(2, 2) - g(1, 2) * g(2, 0)) + g(0, 2) * (g(1, 0) * g(2, 1) - g(1, 1) * g(2, 0));
+                        if !orth { push(&mut out, "rotation:not-orthogonal", format!("{}: R^T R != I", nm), inp.clone()); }
+                        if (det - 1.0).abs() > 1e-12 { push(&mut out, "rotation:determinant", format!("{}: det = {:e}", nm, det), inp.clone()); }
+                    }
+                    if cw.data.len() == 9 && ccw.data.len() == 9 && !(0..3).all(|i| (0..3).all(|j| cw.data[i * 3 + j] == ccw.data[j * 3 + i])) { push(&mut out, "rotation:cw-not-ccw-transposed", "cw != ccw^T".into(), inp.clone()); }
+                }
+                Err(e) => push(&mut out, "rotation:panics", e, inp),
+            }
+        }
+        if out.len() > 120 { break; }
+    }
+    // ---- predicates, every shape
+    let npred = if thorough { 40000 } else { 5000 };
+    for it in 0..npred {
+        let (nr, nc) = (1 + r.below(8) as usize, 1 + r.below(8) as usize);
+        let mut d: Vec<f64> = (0..nr * nc).map(|_| 1.0 + r.below(9) as f64).collect();
+        let kind = it % 4;
+        for i in 0..nr { for j in 0..nc {
+            if kind == 1 && j < i && r.coin(0.98) { d[i * nc + j] = 0.0; }
+            if kind == 2 && j > i && r.coin(0.98) { d[i * nc + j] = 0.0; }
+            if kind == 3 && nr == nc && j < i { d[i * nc + j] = d[j * nc + i] + if r.coin(0.05) { 1.0 } else { 0.0 }; }
+        }}
+        let m = Matrix::new(d.clone(), nr as i32, nc as i32);
+        let e = |i: usize, j: usize| d[i * nc + j];
+        let inp = format!("{}x{} {}", nr, nc, json_floats(&d));
+        crumb(&format!("predicates / slice utilities on {}", inp));
+        tried += 4;
+        let up = (0..nr).all(|i| (0..nc).all(|j| j >= i || e(i, j) == 0.0));
+        let lo = (0..nr).all(|i| (0..nc).all(|j| j <= i || e(i, j) == 0.0));
+        let sym = nr == nc && (0..nr).all(|i| (0..nc).all(|j| (e(i, j) - e(j, i)).abs() <= f64::EPSILON));
+        for (name, want, got) in [("is_upper_triangular", up, catch(|| m.is_upper_triangular())), ("is_lower_triangular", lo, catch(|| m.is_lower_triangular())),
+                                  ("is_symmetric", sym, catch(|| m.is_symmetric())), ("is_square", nr == nc, catch(|| m.is_square()))] {
+            match got { Ok(g) => if g != want { push(&mut out, &format!("{}:wrong", name), format!("returned {}, definition gives {}", g, want), inp.clone()); }
+                        Err(er) => push(&mut out, &format!("{}:panics", name), format!("panicked ({}) on a {}x{} matrix; definition gives {}", er, nr, nc, want), inp.clone()) }
+        }
+        // slice utilities
+        tried += 3;
+        match catch(|| is_design(&d, nr)) { Ok(g) => { let w = (0..nr).all(|i| (e(i, 0) - 1.0).abs() <= f64::EPSILON); if g != w { push(&mut out, "is_design:wrong", format!("returned {}, definition gives {}", g, w), inp.clone()); } } Err(er) => push(&mut out, "is_design:panics", er, inp.clone()) }
+        match catch(|| is_square(&d)) { Ok(g) => { let s = (0..=64usize).find(|s| s * s == nr * nc); if g.clone().ok() != s { push(&mut out, "utils::is_square:wrong", format!("returned {:?} for length {}", g, nr * nc), inp.clone()); } } Err(er) => push(&mut out, "utils::is_square:panics", er, inp.clone()) }
+        if nr == nc { tried += 2;
+            match catch(|| diag(&d).v) { Ok(g) => if g != (0..nr).map(|i| e(i, i)).collect::<Vec<_>>() { push(&mut out, "utils::diag:wrong", format!("{:?}", g), inp.clone()); } Err(er) => push(&mut out, "utils::diag:panics", er, inp.clone()) }
+            match catch(|| is_symmetric(&d)) { Ok(g) => if g != sym { push(&mut out, "utils::is_symmetric:wrong", format!("returned {}", g), inp.clone()); } Err(er) => push(&mut out, "utils::is_symmetric:panics", er, inp.clone()) }
+        }
+        // comparisons
+        let n = 1 + r.below(8) as usize;
+        let x: Vec<f64> = (0..n).map(|_| { let v = r.uniform(0.1, 4.0); if r.coin(0.5) { v } else { -v } }).collect();
+        let tol = *r.pick(&[1e-10, 1e-6, 1e-3, 0.5]);
+        let (vx, neg) = (Vector::new(x.clone()), Vector::new(x.iter().map(|v| -v).collect::<Vec<_>>()));
+        let near = Vector::new(x.iter().map(|v| v * (1.0 + 0.25 * tol)).collect::<Vec<_>>());
+        let far = Vector::new(x.iter().enumerate().map(|(i, v)| if i == n - 1 { v * (1.0 + 4.0 * tol) } else { *v }).collect::<Vec<_>>());
+        let mut longer = x.clone(); longer.push(1.0);
+        let inp = format!("x={} tol={:e}", json_floats(&x), tol);
+        crumb(&format!("close_to / == with {}", inp));
+        tried += 8;
+        let t = |name: &str, want: bool, got: Result<bool, String>, out: &mut Vec<Finding>, class: &str| match got {
+            Ok(g) => if g != want { push(out, class, format!("{} returned {}, definition gives {}", name, g, want), inp.clone()); }
+            Err(er) => push(out, &format!("{}:panics", name), er, inp.clone()) };
+        t("close_to(x, -x, tol)", false, catch(|| vx.close_to(&neg, tol)), &mut out, "close_to:opposite-signs-equated");
+        t("close_to(x, x, tol)", true, catch(|| vx.close_to(&vx.clone(), tol)), &mut out, "close_to:wrong");
+        t("close_to(x, x(1+tol/4), tol)", true, catch(|| vx.close_to(&near, tol)), &mut out, "close_to:wrong");
+        t("close_to(x, x with one entry scaled by 1+4tol, tol)", false, catch(|| vx.close_to(&far, tol)), &mut out, "close_to:wrong");
+        t("close_to(x, x ++ [1], tol)", false, catch(|| vx.close_to(&Vector::new(longer.clone()), tol)), &mut out, "close_to:wrong");
+        t("x == -x", false, catch(|| vx == neg), &mut out, "eq:opposite-signs-equated");
+        t("x == x", true, catch(|| vx == vx.clone()), &mut out, "eq:wrong");
+        t("x == x ++ [1]", false, catch(|| vx == Vector::new(longer.clone())), &mut out, "eq:wrong");
+        let ds = divisors(n);
+        if ds.len() >= 2 { tried += 4;
+            let (m1, m2) = (Matrix::new(x.clone(), 1, -1), Matrix::new(x.clone(), n as i32, -1));
+            let mneg = Matrix::new(neg.v.clone(), 1, -1);
+            t("Matrix 1xn == nx1 (same data)", false, catch(|| m1 == m2), &mut out, "eq:shapes-ignored");
+            t("Matrix 1xn close_to nx1 (same data)", false, catch(|| m1.close_to(&m2, tol)), &mut out, "close_to:shapes-ignored");
+            t("Matrix close_to(m, -m, tol)", false, catch(|| m1.close_to(&mneg, tol)), &mut out, "close_to:opposite-signs-equated");
+            t("Matrix m == m", true, catch(|| m1 == m1.clone()), &mut out, "eq:wrong");
+        }
+        if out.len() > 200 { break; }
+    }
+    (tried, out)
+}
